@@ -385,9 +385,18 @@ func execForced(c *core.Case, fc *forcedCase) {
 			c.Count("forced_I5_close_failed_while_the_handler_was_about_to_signal", 1)
 			outcome = "close-failed"
 		}
-		if !rp.barrier() {
-			c.Violate("ibb:session-ended", "I5: a local Close failed (write deadline passed: %v) while the handler of an incoming packet was about to signal the reader; afterwards the session no longer answers", cerr)
-			outcome = "dead"
+		// Whether the session still answers afterwards is not judged: the
+		// request that Close sends under a context whose deadline has passed may
+		// be cut off by that deadline in the transport, and what a session owes
+		// after a transmit call that failed in mid-write is C05's and C10's
+		// question, not this scenario's.  What is judged is that nothing panics:
+		// on the test goroutine (Guard above) or on the serve loop (the child
+		// dies and the parent reports it).
+		if rp.barrier() {
+			c.Count("forced_I5_session_answers_afterwards", 1)
+		} else {
+			c.Count("forced_I5_session_silent_afterwards_not_judged", 1)
+			outcome = "silent"
 		}
 	}
 	c.Count("forced_scenarios", 1)
